@@ -22,6 +22,10 @@ pub struct Obj {
     /// block observed released
     pub released: bool,
     pub born_event: u32,
+    /// layout-family leaf: (table index, runtime length, pattern seed, value size, value align)
+    pub lay: Option<(u8, usize, u64, usize, usize)>,
+    /// per strong slot: the representation the pointer was stored in (C19)
+    pub conv: Vec<Conv>,
 }
 
 #[derive(Clone, Debug, Default)]
@@ -42,6 +46,8 @@ pub struct ArenaShadow {
     pub root_strong: Vec<Option<Id>>,
     pub root_weak: Vec<Option<Id>>,
     pub root_set_inner: Id,
+    /// the shared object of the root's ZstCache
+    pub root_zst: Option<Id>,
     /// objects resurrected in the current cycle (cleared when the arena is next observed Sleeping)
     pub resurrected: BTreeSet<Id>,
     pub pacing: PacingSpec,
@@ -76,6 +82,7 @@ impl Shadow {
         let mut seen = BTreeSet::new();
         let mut stack: Vec<Id> = ar.root_strong.iter().flatten().copied().collect();
         stack.push(ar.root_set_inner);
+        stack.extend(ar.root_zst);
         stack.extend(ar.resurrected.iter().copied());
         while let Some(i) = stack.pop() {
             if !seen.insert(i) {
